@@ -250,7 +250,7 @@ def _simple(d):
             set(p) <= {'name', 'type', 'nullable'} for p in d['params'])
 
 
-def build_def_shared(d, shared, name='f', tagged=True):
+def build_def_shared(d, shared, name='f', tagged=True, flags=False):
     """One undecorated Python callable registered several times, each time
     with the parameter types of another family member supplied through
     parameter_type_func (a public argument of register_function /
@@ -259,23 +259,32 @@ def build_def_shared(d, shared, name='f', tagged=True):
     if not _simple(d):
         return None
     kind = d.get('kind', 'function')
-    key = (tuple(p['name'] for p in d['params']), kind)
+    key = (tuple(p['name'] for p in d['params']), kind, flags)
     if key not in shared:
         names = ', '.join(key[0])
         ns = {'_show': _show}
         exec('def payload(%s):\n    return [None, [_show(x) for x in [%s]], '
              '{}]\n' % (names, names), ns)
         func = ns['payload']
-        if kind == 'method':
+        if flags:
+            # the kind is given at registration time (below); the callable
+            # carries the *other* decoration, which the flags switch off
+            if kind == 'function':
+                func = specs.extension_method(func)
+        elif kind == 'method':
             func = specs.method(func)
         elif kind == 'extension':
             func = specs.extension_method(func)
         shared[key] = func
     func = shared[key]
     types = {p['name']: p for p in d['params']}
+    kw = {}
+    if flags:
+        kw = {'function': kind in ('function', 'extension'),
+              'method': kind in ('method', 'extension')}
     fd = specs.get_function_definition(
         func, name=name, parameter_type_func=lambda n: make_type(
-            types[n]['type'], types[n].get('nullable', False)))
+            types[n]['type'], types[n].get('nullable', False)), **kw)
     if tagged:
         # (report which member ran; untagged, all members keep the very
         # same payload object and only the arguments are reported)
@@ -310,9 +319,11 @@ def build_chain(family, base, orders=None, ordered=True, reg_order=None):
         if family.get('decl') in ('signature', 'signature-reregistered'):
             fd = build_def_declared(
                 d, reregister=family['decl'] == 'signature-reregistered')
-        elif family.get('decl') in ('shared-callable', 'shared-payload'):
+        elif family.get('decl') in ('shared-callable', 'shared-payload',
+                                    'shared-callable-flags'):
             fd = build_def_shared(
-                d, shared, tagged=family['decl'] == 'shared-callable')
+                d, shared, tagged=family['decl'] != 'shared-payload',
+                flags=family['decl'] == 'shared-callable-flags')
         if fd is None:
             fd = build_def(d)
         defs[d['tag']] = fd
